@@ -21,7 +21,7 @@ MAXS = P.get("maxs", 2)
 
 # RFC 9535 2.7 normalized path
 _NP = re.compile(
-    r"\$(?:\[(?:0|[1-9][0-9]*)\]|\['(?:[\x20-\x26\x28-\x5b\x5d-\U0010ffff]|\\[btnfr'\\]|\\u00(?:0[0-7bBeE]|1[0-9a-fA-F]))*'\])*\Z"
+    r"\$(?:\[(?:0|[1-9][0-9]*)\]|\['(?:[\x20-\x26\x28-\x5b\x5d-\U0010ffff]|\\[btnfr'\\]|\\u00(?:0[0-7bef]|1[0-9a-f]))*'\])*\Z"
 )
 
 
